@@ -142,8 +142,36 @@ def build_plan(choice: Choice, tier):
     for sc in scripts:
         if len(sc) >= 2 and d(5, "reopen") == 4 and not p["write_fault"]:
             sc.insert(1 + d(len(sc) - 1, "reopen.at"), ["reopen"])
+    # --- the storage object is used by a process BEFORE other processes are forked from it
+    # the parent stores one id of its own (above every other id) and closes - or keeps the storage open - before the
+    # writers and readers are forked: every process still needs a file of its own
+    p["parent_stores_first"] = [None, "closed", "open"][d(3, "parent.first.mode")] if d(5, "parent.first") == 4 else None
+    # reader processes forked AFTER the parent has read (its read handles are open at the fork): 2-3 of them read
+    # concurrently with each other and with the parent
+    p["late_readers"] = []
+    p["readers_open"] = d(2, "readers.open") == 0
+    if d(4, "late.readers") == 3:
+        stored = [o[1] for sc in scripts for o in sc if o[0] == "store"]
+        p["late_parent_reads"] = [stored[d(len(stored), "late.parent.read")] for _ in range(1 + d(3, "late.parent.reads"))]
+        for r in range(2 + d(2, "late.readers.n")):
+            ops = []
+            for _ in range(1 + d(5, "late.reader.ops")):
+                ops.append(["list"] if d(8, "late.reader.op") == 7 else ["get", stored[d(len(stored), "late.reader.id")]])
+            p["late_readers"].append(ops)
+        p["late_parent_more"] = [stored[d(len(stored), "late.parent.more")] for _ in range(d(4, "late.parent.more.n"))]
+    # who uses the flushed storage again: a fresh process, a process forked before the flush, a writer that had
+    # already stored before the flush (a long-lived worker), or the parent that had stored before
+    if p["reuse_after_flush"] and not p["reuse_forked_early"]:
+        m = d(4, "reuse.mode")
+        p["reuse_mode"] = "same-writer" if m == 2 and not p["write_fault"] else ("parent" if m == 3 and p["parent_stores_first"] and not p["write_fault"] else "fresh")
+    else:
+        p["reuse_mode"] = "forked-early" if p["reuse_forked_early"] else None
     p["granularity"] = "line" if d(6, "granularity") != 5 else "sync"
     if p["many_ids"]:
+        p["parent_stores_first"] = None
+        p["late_readers"] = []
+        if p["reuse_mode"] in ("same-writer", "parent"):
+            p["reuse_mode"] = "fresh"
         p["granularity"] = "sync"
         p["torn"] = False
         p["write_fault"] = None
@@ -203,6 +231,15 @@ def run_script(k, storage, script, hist, who):
             raise
 
 
+def close_tolerant(storage, plan):
+    try:
+        storage.close()
+    except OSError:
+        # flushing the data of a failed store fails again on a broken disk (the fault may be under the parent's file)
+        if not plan["write_fault"]:
+            raise
+
+
 def scenario(k: Kernel, plan, obs):
     import windpyutils.parallel.storage as st
     ctx = SimContext(k)
@@ -213,6 +250,17 @@ def scenario(k: Kernel, plan, obs):
         RLock = staticmethod(ctx.RLock)
 
     st.multiprocessing = MP
+
+    class OsShim:
+        """storage.py's view of `os`: everything real, but every simulated process has a process id of its own."""
+        def __getattr__(self, name):
+            return getattr(os, name)
+
+        @staticmethod
+        def getpid():
+            return 50_000 + (k.current.proc or 0)
+
+    st.os = OsShim()
     from sim.prims import install_threading_shims
     from sim.kernel import patch_threading
     patch_threading(k)      # a thread the code under test may start becomes a task of the kernel
@@ -251,31 +299,59 @@ def scenario(k: Kernel, plan, obs):
             self.writer = writer
             self.sim_role = "writer" if writer else "reader"
 
+        second = None       # (script, history, paused event, go event): a long-lived writer that works again after the flush
+
         def run(self):
             if self.gate is not None:
                 self.gate.wait()       # forked early, told to start later
             self.storage.reader_only = not self.writer
-            self.storage.open()
+            if self.writer or plan.get("readers_open", True):
+                self.storage.open()         # a reader need not open the storage: reading opens what it needs
             try:
                 run_script(k, self.storage, self.script, self.hist, self.who)
             finally:
+                if self.second is not None:
+                    self.second[2].set()
                 try:
                     self.storage.close()
                 except OSError:
                     # flushing the data of a failed store fails again on a broken disk
                     if not plan["write_fault"]:
                         raise
+            if self.second is not None:
+                script2, hist2, paused, go = self.second
+                go.wait()
+                try:
+                    run_script(k, self.storage, script2, hist2, self.who + "-again")
+                finally:
+                    self.storage.close()
 
+    if plan.get("parent_stores_first"):
+        obs["phase"] = "parent-first"
+        storage.open()
+        run_script(k, storage, [["store", plan["n"] + 3, "stored by the parent before any fork"]], hist, "parent")
+        if plan["parent_stores_first"] == "closed":
+            close_tolerant(storage, plan)
     procs = [Actor(storage, s, f"w{i}", True) for i, s in enumerate(plan["writer_scripts"])]
     procs += [Actor(storage, s, f"r{i}", False) for i, s in enumerate(plan["reader_scripts"])]
+    persistent = None
+    hist2 = History()
+    if plan.get("reuse_mode") == "same-writer":
+        persistent = procs[0]
+        persistent.second = ([["store", g, t] for g, t in plan["reuse_after_flush"]], hist2, ctx.Event(), ctx.Event())
     for p in procs:
         p.start()
+    if plan.get("parent_stores_first") == "open":
+        close_tolerant(storage, plan)
     storage.reader_only = True
     obs["phase"] = "concurrent"
     run_script(k, storage, plan["parent_script"], hist, "parent")
     for p in procs:
-        p.join()
-    obs["exitcodes"] = [p.exitcode for p in procs]
+        if p is persistent:
+            p.second[2].wait()      # it has finished its first script and closed the storage
+        else:
+            p.join()
+    obs["exitcodes"] = [p.exitcode for p in procs if p is not persistent]
     obs["phase"] = "quiescent"
     q = {}
     with storage:
@@ -294,9 +370,20 @@ def scenario(k: Kernel, plan, obs):
         with open(os.path.join(tmp, fn), "rb") as f:
             q["files"][fn] = f.read().decode("utf-8", "replace")
     obs["quiescent"] = q
+    if plan.get("late_readers"):
+        # the parent reads first (its read handles stay open), THEN the reader processes are forked
+        obs["phase"] = "late-readers"
+        run_script(k, storage, [["get", g] for g in plan["late_parent_reads"]], hist, "parent")
+        late = [Actor(storage, sc, f"late-r{i}", False) for i, sc in enumerate(plan["late_readers"])]
+        for p in late:
+            p.start()
+        run_script(k, storage, [["get", g] for g in plan["late_parent_more"]], hist, "parent")
+        for p in late:
+            p.join()
+        obs["exitcodes"] += [p.exitcode for p in late]
+        storage.close()
     early = None
     if plan.get("reuse_forked_early"):
-        hist2 = History()
         gate = ctx.Event()
         early = Actor(storage, [["store", g, t] for g, t in plan["reuse_after_flush"]], "w-again", True, hist2, gate)
         early.start()          # the fork happens here, before the flush
@@ -316,17 +403,31 @@ def scenario(k: Kernel, plan, obs):
     if plan["reuse_after_flush"]:
         obs["phase"] = "reuse"
         TornFileIO.fail = None      # the faults stop before the storage is used again
+        exit_code = 0
         if early is not None:
             w = early
             gate.set()
+        elif persistent is not None:
+            w = persistent
+            w.second[3].set()
+        elif plan.get("reuse_mode") == "parent":
+            # the parent had stored before the flush; now it stores into the flushed storage
+            w = None
+            storage.reader_only = False
+            try:
+                with storage:
+                    run_script(k, storage, [["store", g, t] for g, t in plan["reuse_after_flush"]], hist2, "parent-again")
+            except Exception as e:  # noqa
+                exit_code = repr(e)
         else:
-            hist2 = History()
             w = Actor(storage, [["store", g, t] for g, t in plan["reuse_after_flush"]], "w-again", True, hist2)
             w.start()
-        w.join()
+        if w is not None:
+            w.join()
+            exit_code = w.exitcode
         storage.reader_only = True
         with storage:
-            ru = {"len": len(storage), "contiguous": storage.is_contiguous(), "list": list(storage), "exit": w.exitcode,
+            ru = {"len": len(storage), "contiguous": storage.is_contiguous(), "list": list(storage), "exit": exit_code,
                   "errors": [o.get("error") for o in hist2.ops if "error" in o]}
             reads = []
             for g, _ in plan["reuse_after_flush"]:
@@ -537,11 +638,13 @@ class Spec:
     FILES = FILES
     REAL = ["windpyutils.parallel.storage.TextFileStorage", "CPython io stack on real files (private temp dir)"]
     STUBBED = ["multiprocessing.Manager list proxies (per-call atomic)", "multiprocessing.Value / RLock",
-               "process creation (kernel task on a fork-like copy of the storage taken before open())",
+               "process creation (kernel task on a fork-like copy of the storage; an open file is copied as os.dup() of its "
+               "descriptor: same open file description, own buffers)", "os.getpid() inside storage.py (one id per simulated process)",
                "raw file behind open(.., 'w'/'a') in the torn-write family (short writes + yield point)"]
     ASSUMPTIONS = [
-        "a simulated process = a task holding a copy of the storage object made before it was opened "
-        "(private handles, shared index/counters/lock), as in the test-suite and the docstring",
+        "a simulated process = a task holding a fork-like copy of the storage object (shared index/counters/lock; "
+        "handles that are open at the fork share their file position with the parent's, as after fork(2)); mostly "
+        "forked before the first use, as in the test-suite, but also after the parent has stored or read",
         "pre-emption at every source line of storage.py and every proxy / Value / lock operation",
         "texts are single-line; is_contiguous() is judged at quiescence only",
         "sampling, not enumeration",
